@@ -126,6 +126,15 @@ func loadKnown() []KnownFinding {
 	return k.Findings
 }
 
+// crashOwners: functions whose appearance in the stack of a crash makes the
+// crash a violation of the property (besides C15, which owns every crash).
+var crashOwners = map[string][]string{
+	"C12": {"rescache.lcs(", "processResetGetResponse", "processResetModel", "processResetCollection", "handleSystemReset", "resourcePattern"},
+	"C13": {"handleQueryEvent", "DecodeEventQueryResponse"},
+	"C19": {"rescache.(*Throttle)"},
+	"C09": {"mqUnsubscribe", "removeCount", "addCount", "unsubQueue", "timerqueue"},
+}
+
 func traceHas(tr []Decision, kind, sub string) bool {
 	for _, d := range tr {
 		if d.K == kind && strings.Contains(d.P, sub) {
@@ -267,6 +276,12 @@ func check(prop, tier string, opts map[string]string) int {
 		}
 		if prop == "C11" && traceHas(cfg.Replay, "cli", `"close"`) {
 			v.Prop, v.Clause = "C11", "b"
+		}
+		// a crash inside the code a property is about violates that property too
+		for _, fn := range crashOwners[prop] {
+			if strings.Contains(wo.stderr, fn) {
+				v.Prop, v.Clause = prop, "crash"
+			}
 		}
 		if v.Prop == prop {
 			a.mu.Lock()
